@@ -367,7 +367,7 @@ func max0(a int) int {
 func TestSubtreeReplacement(t *testing.T) {
 	harness.Check(t, "subtree-replacement", 8000, 300000, func(rt *rapid.T) {
 		v := rapid.SampledFrom([]px.Ver{px.V56, px.V74}).Draw(rt, "version")
-		o := progs.Options(v)
+		o := progs.StructuralOptions(v)
 		o.NoHTML = true
 		c := progs.Draw(rt, v, o, 1, 4)
 		lay := c.G.Render(c.Root, progs.Policy(rt, phpgen.PolicyFull, nil))
